@@ -119,6 +119,19 @@ pub fn main() {
         let bad: Vec<(u64, u32)> = tok::LEDGER.with(|l| { let l = l.borrow(); let mut b: Vec<(u64, u32)> = l.created.keys().map(|id| (*id, l.dropped.get(id).copied().unwrap_or(0))).filter(|(_, d)| *d != 1).collect(); b.sort(); b });
         out.push(obj(&[("check", esc("drop_items")), ("ok", bad.is_empty().to_string()), ("detail", esc(&format!("5 owned items in a released buffer: tokens not destroyed exactly once (id, destructor runs): {:?} [release of the storage]", bad)))]));
     }
+    // (d) ownership of the items of a source vector: moved into the buffer, destroyed exactly once
+    {
+        tok::reset_ledger();
+        let v: Vec<Tok> = (0..ps).map(|_| Tok::with_id(tok::fresh_id())).collect();
+        let buf = LocalHeapRB::from(v);
+        let (mut p, mut c) = buf.split();
+        unsafe { p.advance(6) };
+        let popped: Vec<u64> = (0..4).filter_map(|_| unsafe { c.pop_move() }).map(|t| t.id).collect();
+        drop(p); drop(c);
+        let bad: Vec<(u64, u32)> = tok::LEDGER.with(|l| { let l = l.borrow(); let mut b: Vec<(u64, u32)> = l.created.keys().map(|id| (*id, l.dropped.get(id).copied().unwrap_or(0))).filter(|(_, d)| *d != 1).collect(); b.sort(); b.truncate(8); b });
+        let ok = bad.is_empty() && popped == vec![1, 2, 3, 4];
+        out.push(obj(&[("check", esc("from_vec_owned")), ("ok", ok.to_string()), ("detail", esc(&format!("buffer built from a vector of {ps} owned items, 4 popped ({:?}), then released: tokens not destroyed exactly once (id, destructor runs, first 8): {:?} [release of the storage]", popped, bad)))]));
+    }
     println!("{}", arr(&out));
 }
 }
